@@ -92,7 +92,7 @@ structure PollRes where
 deriving DecidableEq, Repr, Inhabited
 
 inductive Op
-  | init (k : Kind) (id : Nat)          -- `id` must be the next handle id
+  | init (k : Kind)                    -- the new handle gets the next id
   | start (h a b : Nat)
   | stop (h : Nat)
   | again (h : Nat)
@@ -102,8 +102,8 @@ inductive Op
   | close (h : Nat)
   | asyncSend (h : Nat)
   | bind (h : Nat)
-  | udpSend (r h : Nat)                -- `r` must be the next request id
-  | work (r : Nat)
+  | udpSend (h : Nat)                  -- the new request gets the next id
+  | work
   | cancel (r : Nat)
   | stopLoop
   | updateTime
@@ -139,7 +139,7 @@ inductive Event
   | op (o : Op) (ret : Option Int)
   | cb (ph : Phase) (k : CbKind) (id : Nat) (a b : Int)
   | endcb
-  | poll (timeout : Int) (r : PollRes)
+  | poll (iter : Nat) (timeout : Int) (r : PollRes)
   | obs (o : Obs)
   | runBegin (m : Mode)
   | runEnd (m : Mode) (r : Bool)
@@ -183,6 +183,7 @@ structure State where
   halted : Bool := false              -- the environment reported a deadlock / ran out of inputs
   nIllegal : Nat := 0
   ncbTotal : Nat := 0
+  loopCount : Nat := 0                -- metrics.loop_count (uv__metrics_inc_loop_count)
   trace : List Event := []            -- newest first
 deriving Repr, Inhabited
 
@@ -520,7 +521,7 @@ def ok (s : State) (r : Int := 0) : State × Ret := (s, some r)
 def applyOp (s : State) (o : Op) : State × Ret :=
   if s.closed then illegal s else
   match o with
-  | .init k id => if id == s.nextId then ok (initH s k) else illegal s
+  | .init k => ok (initH s k)
   | .start id a b =>
     match getH s id with
     | none => illegal s
@@ -586,11 +587,11 @@ def applyOp (s : State) (o : Op) : State × Ret :=
         ok (modH s id (fun h => { h with io := { h.io with hasFd := true } }))
       else illegal s
     | none => illegal s
-  | .udpSend r id =>
+  | .udpSend id =>
     match getH s id with
-    | some h => if r == s.nextReq && h.kind == .udp && !hClosing h then ok (udpSend s id) else illegal s
+    | some h => if h.kind == .udp && !hClosing h then ok (udpSend s id) else illegal s
     | none => illegal s
-  | .work r => if r == s.nextReq then ok (workSubmit s) else illegal s
+  | .work => ok (workSubmit s)
   | .cancel r =>
     if s.reqs.contains ({ id := r, kind := .work } : Req) then let (s, rc) := workCancel s r; ok s rc else illegal s
   | .stopLoop => ok { s with stop := true }
